@@ -14,65 +14,65 @@ HERE = os.path.dirname(os.path.dirname(os.path.abspath(__file__)))
 
 # id: (technique, what the check gives, what is assumed / not decided)
 T = {
- 'C01': ('static analysis: workflow typestate (abstract interpretation of compile.py builders), guarded-accept dataflow, index-space typing, effect pairing, alternative-spelling agreement (ALTSPELL)',
-         'Decides necessary structural clauses: every standard workflow configuration (levels 1-4 x error bound) ends with the facts MODEL, measurements restored, unfolded, real connectivity, native multi-qudit gates, routed, placed; candidates are committed only under cost < success_threshold with a data-flow link to the committed object; mapping bookkeeping is well typed over index spaces; measurement extraction/restoration are paired.',
+ 'C01': ('static analysis: workflow typestate (abstract interpretation of compile.py builders), guarded-accept dataflow, index-space typing, effect pairing, alternative-spelling agreement (ALTSPELL), even-parity of tentative in-place swaps on every exit (UNDO)',
+         'Decides necessary structural clauses: every standard workflow configuration (levels 1-4 x error bound) ends with the facts MODEL, measurements restored, unfolded, real connectivity, native multi-qudit gates, routed, placed; candidates are committed only under cost < success_threshold with a data-flow link to the committed object; mapping bookkeeping is well typed over index spaces; measurement extraction/restoration are paired and are the first / last circuit-changing passes; a tentative swap of the routing state (swap scoring) is taken back on every exit.',
          'Numerical equality of linear maps, epsilon budgets and schedule independence are NOT decided. Trusted: the pass effect table (sa/tables/pass_effects.py), index-space signatures (sa/tables/index_spaces.py).'),
- 'C02': ('static analysis: workflow typestate, registry agreement (REG), edge normal form (NF), conjunct coverage (CONJ), data-flow of the block sub-model, predicate specifications (PRED), predicate-implies-emit truth table (GUARDEMIT), alternative-spelling agreement (ALTSPELL)',
+ 'C02': ('static analysis: workflow typestate, registry agreement (REG), edge normal form (NF), conjunct coverage (CONJ), data-flow of the block sub-model, predicate specifications (PRED), predicate-implies-emit truth table (GUARDEMIT), flag-pair grouping of alternative gates (FLAGPAIR), alternative-spelling agreement (ALTSPELL)',
          'Decides: all circuit workflows end native+routed+placed and the direct workflows end native; replace-filter names are keys of the registry; is_compatible tests width, gate set, coupling and radixes on every path to True; edge-membership probes are normalised; the per-block sub-model is built from the block location; the branch predicates mean what the typestate assumes; ZXGatePredicate implies that one gate of every alternative pair ZXZXZDecomposition can emit is native (all gate-set patterns enumerated).',
          'That synthesis actually reaches native gates, and verdict equality of is_compatible on concrete circuits, are NOT decided.'),
- 'C03': ('static analysis: workflow typestate (target set before search), guarded accept, order-preserving chain, aligned parallel lists, radix belief contradiction',
-         'Decides: direct workflows set model and target before synthesis; search returns only under the threshold (or the logged best-effort exit); list inputs flow through order-preserving steps only; permutation tables are enumerated in the same nesting order where zipped; radix-dependent constructions build circuits of that radix.',
+ 'C03': ('static analysis: workflow typestate (target set before search), guarded accept, order-preserving chain, aligned parallel lists (ALIGN), radix belief contradiction (RADIX), adjoint-spelling agreement against a reference table (ADJOINT)',
+         'Decides: direct workflows set model and target before synthesis; search returns only under the threshold (or the logged best-effort exit); list inputs flow through order-preserving steps only; permutation tables are enumerated in the same nesting order where zipped; radix-dependent constructions build circuits of that radix; a matrix the pinned tree adjoins with .conj().T / .dagger is not merely transposed or conjugated.',
          'Convergence of numerical search and distance values are NOT decided.'),
- 'C04': ('static analysis: CFG path rules (DUNDER, DEAD), batch-order classification with a linear-form evaluator (BATCHORD), sequence-order rules (SEQORD), append/insert specifications (APPEND, INSERT), shadow propagation in straighten (SHADOW), operation-parameter flow on unfold (PARAMFLOW)',
-         'Decides: in-place operators return self; documented result values are live; batch editors visit positions in an index-safe order; composite editors emit operations in program order and map locations through the given location; straighten pushes every qudit of a moved operation; unfold/unfold_all inline a block with the operation\'s parameters.',
+ 'C04': ('static analysis: CFG path rules (DUNDER, DEAD), batch-order classification with a linear-form evaluator (BATCHORD), sequence-order rules (SEQORD), append/insert specifications (APPEND, INSERT), shadow propagation in straighten (SHADOW), operation-parameter flow on unfold (PARAMFLOW), permutation direction (PERMDIR), no self-comparison (TAUT)',
+         'Decides: in-place operators return self; documented result values are live; batch editors visit positions in an index-safe order; composite editors emit operations in program order and map locations through the given location; straighten pushes every qudit of a moved operation; unfold/unfold_all inline a block with the operation\'s parameters; renumber_qudits applies the permutation in the documented direction to every component; no comparison has the same operand on both sides.',
          'Equality with a list-of-cycles reference model over edit histories is NOT decided.'),
- 'C05': ('static analysis: effect extraction over Circuit mutators (REMAP, COUP), key normal form (NF), pointer-slot typing (DAGLINK), response path rule, independent front/rear retargeting (FRONTREAR), read-API specifications (READAPI)',
-         'Decides: every renumbering rewrites every index-bearing component of every view; edge-counter keys are created sorted; primitive mutators co-update grid, links, front/rear and both counters with consistent signs; prev/next pointer writes are well typed; front and rear pointers are retargeted by independent tests in pop/replace/straighten; pop removes a cycle it emptied.',
+ 'C05': ('static analysis: effect extraction over Circuit mutators (REMAP, COUP), key normal form (NF), pointer-slot typing (DAGLINK), response path rule, independent front/rear retargeting (FRONTREAR), read-API specifications (READAPI), permutation direction (PERMDIR), mirror-image agreement of prev/next siblings (MIRROR)',
+         'Decides: every renumbering rewrites every index-bearing component of every view, all in the same direction; edge-counter keys are created sorted; primitive mutators co-update grid, links, front/rear and both counters with consistent signs; prev/next pointer writes are well typed; front and rear pointers are retargeted by independent tests in pop/replace/straighten; forward and backward sibling walkers are mirror images; pop removes a cycle it emptied.',
          'View consistency over arbitrary edit histories and absence of empty cycles after straighten/fold are NOT decided.'),
- 'C06': ('static analysis: cursor discipline of sibling walkers (CURSOR), value-numbered clone comparison (CLONE), index-space typing of circuit-wide vs operation-local parameter indices (IXT)',
+ 'C06': ('static analysis: cursor discipline of sibling walkers (CURSOR), value-numbered clone comparison (CLONE), index-space typing of circuit-wide vs operation-local parameter indices (IXT), mirror-image agreement of the forward/backward grid walkers (MIRROR)',
          'Decides: every function that walks operations with a running parameter index uses the same iteration order, slices params[i:i+W] and advances i by the same W exactly once per iteration; apply_right/left and their eval_ clones have equal contraction expressions; gradient product-rule structure; an operation-local parameter index never goes where a circuit-wide one is expected (and vice versa).',
          'Correctness of the contraction itself and numerical values are NOT decided.'),
  'C07': ('static analysis: message-protocol extraction and closure (PROTO), token/lock dataflow (TOKEN, LOCK), cross-thread atomicity (ATOM), precedence and sibling rules',
-         'Decides: the protocol is closed on all four channels with agreeing payload shapes and sibling consumers; round-trip requests are answered exactly once per path; the wake-once token is cleared when consumed; read-receipt lock discipline; mailbox exists before SUBMIT; routing siblings agree; next() batches are handed over by reference before the reset. Reports the non-atomic wake protocol as a known finding.',
+         'Decides: the protocol is closed on all four channels with agreeing payload shapes and sibling consumers; round-trip requests are answered exactly once per path; the wake-once token is cleared when consumed; read-receipt lock discipline; mailbox exists before SUBMIT; routing siblings agree; next() batches are handed over by reference before the reset; Worker.map reserves one mailbox slot per task; a manager routes a message for a task it does not own below. Reports the non-atomic wake protocol as a known finding.',
          'Delivery orders, thread interleavings, exactly-once execution and liveness are NOT decided.'),
- 'C08': ('static analysis: sibling agreement on barrier-like operations (SIB), exactly-one path rule in QuickPartitioner (PATH), live-parameter contradiction (PARAMLIVE), transitive-blocking co-update (CLOSURE), operation-parameter flow on block re-wrapping (PARAMFLOW)',
-         'Decides: each partitioner discriminates barrier/measurement/reset before grouping (five known findings); QuickPartitioner puts every operation in exactly one bin and only original points reach the output; a bounding argument passed by a caller is honoured by the callee; a bin that must wait for another inherits what that one waits for; ExtendBlockSizePass re-wraps a block with the operation\'s parameters.',
-         'Block width bounds and order preservation on concrete circuits are algorithmic and NOT decided (only the transitivity co-update of the blocking sets is).'),
- 'C09': ('static analysis: effect pairing in the forward passes (PAIR), index-space typing (IXT), data-flow of the executable list (FLOW), eq/hash (HASH), aligned lists (ALIGN)',
-         'Decides: every change of pi is mirrored by an emitted swap (and vice versa) on every path; emitted locations are physical; operations are emitted only if _can_exe held; mapping writes are well typed and placed after the forward pass; CouplingGraph hash is order independent.',
+ 'C08': ('static analysis: sibling agreement on barrier-like operations (SIB), exactly-one path rule in QuickPartitioner (PATH), live-parameter contradiction (PARAMLIVE), transitive-blocking co-update (CLOSURE), blocking sweep after every ordering event (BLOCKALL), pending-entry activation in a loop (DRAIN), operation-parameter flow on block re-wrapping (PARAMFLOW)',
+         'Decides: each partitioner discriminates barrier/measurement/reset before grouping (five known findings); QuickPartitioner puts every operation in exactly one bin and only original points reach the output; a bounding argument passed by a caller is honoured by the callee; a bin that must wait for another inherits what that one waits for; every ordering event of the sweep (operation added to a bin, barrier queued) comes with a blocking sweep over all active bins in the same iteration; iterators that activate pending qudits drain all due entries; ExtendBlockSizePass and QuickPartitioner re-wrap a block with the operation\'s parameters.',
+         'Block width bounds and order preservation on concrete circuits are algorithmic and NOT decided (only the transitivity co-update and the presence of the blocking sweeps are).'),
+ 'C09': ('static analysis: effect pairing in the forward passes (PAIR), index-space typing (IXT), data-flow of the executable list (FLOW), eq/hash (HASH), aligned lists (ALIGN), even-parity of tentative swaps (UNDO), field completeness of PassData.become (FIELDS)',
+         'Decides: every change of pi is mirrored by an emitted swap (and vice versa) on every path; emitted locations are physical; operations are emitted only if _can_exe held; mapping writes are well typed and placed after the forward pass; CouplingGraph hash is order independent; the permutation-aware passes enumerate their permutation tables in aligned order; swap scoring takes its tentative swap back on every exit.',
          'Equality of output and input under the mappings, termination of the uphill escape and connectivity of placements are NOT decided.'),
- 'C10': ('static analysis: guarded accept over all numerical passes (GA), radix belief contradiction (RADIX), rule-template protocol (TEMPLATE), effect restriction (EFF), alternative-spelling agreement (ALTSPELL), ordered-complement slices (STABLEMOVE), operation-parameter flow (PARAMFLOW)',
-         'Decides: every numerical pass commits a candidate only under cost < threshold linked to that candidate and the pass target; qubit-only constructions are not fed radix-dependent gates; rule passes drop their source gate, introduce the advertised target and replace every collected point; removal passes only pop; the two spellings of a rotation receive the same angle; moving the multiplexor target keeps the select order; re-wrapped blocks keep their operation\'s parameters.',
+ 'C10': ('static analysis: guarded accept over all numerical passes (GA), radix belief contradiction (RADIX), rule-template protocol (TEMPLATE), effect restriction (EFF), alternative-spelling agreement (ALTSPELL), ordered-complement slices (STABLEMOVE), operation-parameter flow (PARAMFLOW), enumeration index identity (ENUMID), adjoint-spelling agreement (ADJOINT)',
+         'Decides: every numerical pass commits a candidate only under cost < threshold linked to that candidate and the pass target; qubit-only constructions are not fed radix-dependent gates; rule passes drop their source gate, introduce the advertised target and replace every collected point; removal passes only pop; the two spellings of a rotation receive the same angle; moving the multiplexor target keeps the select order; re-wrapped blocks keep their operation\'s parameters; an enumerate() index used as an identifier is taken over the unfiltered sequence; matrices the pinned tree adjoins are not merely transposed or conjugated.',
          'Algebraic correctness of rules and decompositions is arithmetic over reals and NOT decided.'),
- 'C11': ('static analysis: CFG specifications of control passes (SPEC), co-update and data-flow rules for ForEachBlockPass (COUP, FLOW), capture/restore pairing (PAIR), field completeness (FIELDS)',
+ 'C11': ('static analysis: CFG specifications of control passes (SPEC), co-update and data-flow rules for ForEachBlockPass (COUP, FLOW), capture/restore pairing (PAIR), field completeness (FIELDS), operation-parameter flow into the per-block sub-circuit (PARAMFLOW)',
          'Decides: each control pass runs its bodies under exactly the predicate edges its specification names; ForEachBlockPass records point/op/error together from positions captured before the body ran and writes back once; rejected branches restore circuit and data; PassData.become restores every field.',
          'Error-bound arithmetic being an upper bound and batch_replace compensation on concrete circuits are NOT decided.'),
  'C12': ('static analysis: container coverage of the cancel handler (COVER), path rules over cancel/forward/refuse sites (MUST), release-on-discard (LEAK), admissible refusal conditions (REFUSE), monotone id allocators (FRESH)',
-         'Decides: cancel reaches every task-holding container of the worker, every role forwards it, results/awaits of cancelled work are refused, finished owners cancel unfinished children; the server declines a cancel only for unknown/cancelled/foreign tasks; mailbox ids are never reused; reports the two discard branches that leak a _tasks entry as known findings.',
+         'Decides: cancel reaches every task-holding container of the worker, every role forwards it, results/awaits of cancelled work are refused, finished owners cancel unfinished children; the server declines a cancel only for unknown/cancelled/foreign tasks; mailbox ids are never reused; the worker marks a task cancelled before it drops its work, and a cancelled task\'s error is not forwarded; reports the two discard branches that leak a _tasks entry as known findings.',
          'Races between CANCEL and RESULT and quiescent emptiness in general are NOT decided.'),
  'C13': ('static analysis: tainted-key guard analysis with table invariants (KEYGUARD), ownership checks (OWNER), error-chain path rules (MUST), monotone id allocator (FRESH)',
          'Decides: every client-keyed table access in the server loop is guarded, defaulted or covered by a listed invariant (so no request raises KeyError into the loop); handlers check ownership; task errors are forwarded worker -> server -> owning client -> exception, tagged with the compilation id; server mailbox ids are never reused.',
          'Multi-client interleavings are NOT enumerated; table invariants I1-I8 are asserted (their same-block maintenance is checked).'),
  'C14': ('static analysis: classification of blocking receives in loops (RECV) and path rules over the shutdown chain (MUST), exception coverage of thread functions (RECV:coverage)',
-         'Decides: a connection-loss exception in any receive/send loop propagates or reaches a terminating effect; losing an employee connection leads to shutdown, which tells and joins every employee, closes client connections and is forwarded on every role; client calls convert a closed connection into an exception; receive/send handlers in thread functions cover end-of-file and OS-level loss; every handle_disconnect override reaches the base version or shuts down.',
+         'Decides: a connection-loss exception in any receive/send loop propagates or reaches a terminating effect; losing an employee connection leads to shutdown, which tells and joins every employee, closes client connections and is forwarded on every role; client calls convert a closed connection into an exception; receive/send handlers in thread functions cover end-of-file and OS-level loss; every handle_disconnect override reaches the base version or shuts down; the detached server joins its listener thread only after the base shutdown has cleared the running flag.',
          'Bounded time, crash points mid-message and second crashes are NOT decided.'),
  'C15': ('static analysis: lock dataflow (LOCK), co-update (COUP), registry agreement of receipts (REG), exactly-one path rule (PATH), data-flow with linear forms (FLOW), complementary slices (PARTITION)',
-         'Decides: read-receipt lock discipline; schedule_tasks co-updates enqueue/count/idle(min)/cache; echoed receipts equal cached ids; exactly one completion notice per task per role; handle_waiting applies the clamped correction and keeps the range assertion; task lists are split into complementary slices and the count reported upstream is that of the kept slice.',
+         'Decides: read-receipt lock discipline; schedule_tasks co-updates enqueue/count/idle(min)/cache; echoed receipts equal cached ids; exactly one completion notice per task per role; handle_waiting applies the clamped correction and keeps the range assertion; task lists are split into complementary slices and the count reported upstream is that of the kept slice; the server books an UPDATE payload on the sending employee.',
          'Counter exactness under message crossings is value-level and NOT decided.'),
- 'C16': ('static analysis: field completeness (FIELDS), pickle writer/reader shape agreement (REDUCE), eq/hash consistency (HASH), reserved-key registry (REG), prefix-equality (zip) clause, deep-branch aliasing (DEEP), pickle new-args agreement (NEWARGS)',
-         'Decides: copy/become/clear and the CouplingGraph copy-constructor carry every __init__ field; Circuit.__reduce__ and rebuild_circuit agree on state shape, gate indexing, dill flag and cycle grouping; every eq/hash pair in bqskit/ is consistent and order independent and no __eq__ stops at the shorter operand; become(deepcopy=True) deep-copies nested containers; classes with __new__(**kwargs) return (args, kwargs) to pickle from what __new__ kept.',
+ 'C16': ('static analysis: field completeness (FIELDS), pickle writer/reader shape agreement (REDUCE), eq/hash consistency (HASH), reserved-key registry (REG), prefix-equality (zip) clause, radix-blind component clause, hash memo clause, deep-branch aliasing (DEEP), pickle new-args agreement (NEWARGS), no self-comparison (TAUT)',
+         'Decides: copy/become/clear and the CouplingGraph copy-constructor carry every __init__ field; Circuit.__reduce__ and rebuild_circuit agree on state shape, gate indexing, dill flag and cycle grouping; every eq/hash pair in bqskit/ is consistent and order independent and no __eq__ stops at the shorter operand or compares a radix-blind component without the radixes; a memoised hash is computed from the same fields as the unmemoised one; become(deepcopy=True) deep-copies nested containers; classes with __new__(**kwargs) return (args, kwargs) to pickle from what __new__ kept.',
          'Equality of concrete round-tripped objects and dill coverage of closures are NOT decided.'),
- 'C17': ('static analysis: registry agreement between QASM writer and reader tables and between grammar, evaluator and the OpenQASM 2 function set (REG), translator data-flow (FLOW), register-offset cursor discipline and index-space typing in the reader (REGOFF)',
-         'Decides: every statically named gate spelling the writer can emit is in the reader table with the same arity and constructor (known gaps reported); grammar function terminals = evaluator table = OpenQASM 2 set; every semantic grammar rule has a visitor method; translators go through the QASM codec; every register-local qubit index reaches the circuit only shifted by its register\'s offset, computed by a cursor that starts at 0 and advances by each register\'s size.',
+ 'C17': ('static analysis: registry agreement between QASM writer and reader tables and between grammar, evaluator and the OpenQASM 2 function set (REG), translator data-flow (FLOW), register-offset cursor discipline and index-space typing in the reader (REGOFF), declare-once in the writer (DECLONCE), bracket / spliced-number clauses of the expression evaluator (REG-rules), parameter cursor of custom gate definitions (CURSOR), ascending index inserts (INSERTORD)',
+         'Decides: every statically named gate spelling the writer can emit is in the reader table with the same arity and constructor (known gaps reported); grammar function terminals = evaluator table = OpenQASM 2 set; every semantic grammar rule has a visitor method; translators go through the QASM codec; every register-local qubit index reaches the circuit only shifted by its register\'s offset, computed by a cursor that starts at 0 and advances by each register\'s size; the writer declares each register once; the evaluator keeps the brackets of a parenthesised sub-expression and brackets every spliced argument; a custom gate definition hands each inner gate its own parameter slice.',
          'Unitary agreement with Qiskit and parameter binding in nested definitions are NOT decided.'),
- 'C18': ('static analysis: eq/hash consistency (HASH), override pairing (OVERRIDE), value-numbered agreement of get_unitary/get_grad/get_unitary_and_grad (TRIAD), gradient literal shapes (GRADSHAPE, SIBTEMP), order-sensitive folds (KRONFOLD, INSERTORD)',
-         'Decides: all gate classes have consistent, order-independent eq/hash; inverse methods are overridden together; the three evaluation entry points of delegating gates are the same expressions; hand-written gradient literals have one matrix per parameter with the unitary\'s shape; Kronecker folds keep the accumulator on the left; index inserts run in ascending order.',
+ 'C18': ('static analysis: eq/hash consistency (HASH), override pairing (OVERRIDE), value-numbered agreement of get_unitary/get_grad/get_unitary_and_grad (TRIAD), gradient literal shapes (GRADSHAPE, SIBTEMP), order-sensitive folds (KRONFOLD, INSERTORD), adjoint-spelling agreement (ADJOINT), no angle from a quotient (ATAN)',
+         'Decides: all gate classes have consistent, order-independent eq/hash; inverse methods are overridden together; the three evaluation entry points of delegating gates are the same expressions; hand-written gradient literals have one matrix per parameter with the unitary\'s shape; Kronecker folds keep the accumulator on the left; index inserts run in ascending order; matrices the pinned tree adjoins are not merely transposed or conjugated; optimize() recovers angles with a two-argument arctangent, never from a quotient.',
          'Unitarity, derivative values, calc_params and agreement with the binary expression backend are numerical and NOT decided.'),
- 'C19': ('static analysis: returns-receiver path rule, effect restriction on the receiver circuit (EFF), arg-min selection idiom over the four multi-start siblings, in both the sort and the running-minimum spelling (ARGMIN), parameter-vector order (CURSOR)',
+ 'C19': ('static analysis: returns-receiver path rule, effect restriction on the receiver circuit (EFF), arg-min selection idiom over the four multi-start siblings, in both the sort and the running-minimum spelling (ARGMIN), parameter-vector order (CURSOR), clone comparison of the UnitaryBuilder contractions (CLONE)',
          'Decides: Circuit.instantiate returns self on every path; from instantiate and every instantiater only set_params mutates the receiver; all multi-start selectors keep the candidate of least Hilbert-Schmidt cost against (circuit, target); Circuit.params is the concatenation in iteration order.',
          'Everything about the native cost engine (compiled bqskitrs) is outside the source tree and NOT decided.'),
- 'C20': ('static analysis: undirected-edge normal form for writers and probes (NF), parallel-view derivation (FIELDS), set-growing search specification (GROW), clone comparison of the UnitaryBuilder contractions (CLONE)',
-         'Decides only the representation invariant: edges are stored normalised, every membership probe is normalised or probes both orders, _edges/_adj/_mat are derived from one edge set, returned subgraphs are built through the constructor; the connected-subset search starts from every vertex, grows a private copy and draws candidates from the adjacency of every member; apply_left/right and their eval_ clones contract alike.',
+ 'C20': ('static analysis: undirected-edge normal form for writers and probes (NF), parallel-view derivation (FIELDS), set-growing search specification (GROW), clone comparison of the UnitaryBuilder contractions (CLONE), index-domain agreement of ranged subscripts (RANGEDOM), full-range sort of the completed permutation (SORTALL)',
+         'Decides only the representation invariant: edges are stored normalised, every membership probe is normalised or probes both orders, _edges/_adj/_mat are derived from one edge set, returned subgraphs are built through the constructor; the connected-subset search starts from every vertex, grows a private copy and draws candidates from the adjacency of every member; apply_left/right and their eval_ clones contract alike; a loop variable ranging over one graph\'s vertices does not index a table built over another\'s; PermutationMatrix.from_qudit_location sorts every position of the completed permutation.',
          'Shortest paths, permutation matrices and the values of contractions are algorithmic/numerical and NOT decided (of the enumeration only the growth rule is).'),
 }
 
